@@ -627,6 +627,25 @@ Fixpoint swap_remove (kids : list N) (id : N) : list N :=
 Definition first_raw_in_scope (l : list entry) (skip : N) (i : N) : option entry :=
   find (fun e => negb (e_id e =? skip) && (e_ty e =? T_RAW) && in_scope (e_frag e) i) l.
 
+(* "Fix up reference fields" of _GD_Delete (del.c:336-398): new D->reference_field and
+   new per-fragment ref_name when the RAW field E goes away *)
+Definition del_refs (l1 : list entry) (E : entry) (rf : option N) (fr : list (option name))
+  : option N * list (option name) :=
+  if e_ty E =? T_RAW then
+    let flagged i := match nth i fr None with Some r => name_eqb r (e_name E) | None => false end in
+    let repl i := first_raw_in_scope l1 (e_id E) i in
+    let newf i := if flagged i then match repl (N.of_nat i) with Some x => Some (e_name x) | None => None end
+                  else nth i fr None in
+    let reference := if flagged 0%nat then repl 0 else None in
+    (match reference with
+     | Some x => Some (e_id x)
+     | None => match rf with
+               | Some r => if r =? e_id E then None else rf
+               | None => None
+               end
+     end, [newf 0%nat; newf 1%nat])
+  else (rf, fr).
+
 Definition op_del (c : cfg) (s : state) (nm : name) (flags : N) : state * res :=
   let l := s_ents s in
   match find_nd l nm with
@@ -642,24 +661,8 @@ Definition op_del (c : cfg) (s : state) (nm : name) (flags : N) : state * res :=
       let '(l1, refused) := if f_force then (l, false) else check_all l f_deref (map e_id l) dels in
       if refused then (set_ents s l1, RInt E_DELETE) else
       (* reference fix-up *)
-      let s1 := set_ents s l1 in
-      let s2 :=
-        if e_ty E =? T_RAW then
-          let flagged i := match nth i (s_fref s1) None with Some r => name_eqb r (e_name E) | None => false end in
-          let repl i := first_raw_in_scope l1 (e_id E) i in
-          let newf i := if flagged i then match repl (N.of_nat i) with Some x => Some (e_name x) | None => None end
-                        else nth i (s_fref s1) None in
-          let reference := if flagged 0%nat then repl 0 else None in
-          let s' := set_fref s1 [newf 0%nat; newf 1%nat] in
-          match reference with
-          | Some x => set_ref s' (Some (e_id x))
-          | None =>
-              match s_ref s' with
-              | Some r => if r =? e_id E then set_ref s' None else s'
-              | None => s'
-              end
-          end
-        else s1 in
+      let '(rf', fr') := del_refs l1 E (s_ref s) (s_fref s) in
+      let s2 := set_fref (set_ref (set_ents s l1) rf') fr' in
       (* clear clients and derived fields *)
       let l3 := map (clear_one c f_deref dels) (s_ents s2) in
       if e_meta E then
